@@ -175,7 +175,12 @@ def comp_case(col, rng, cidx, jobref=None):
         try:
             with warnings.catch_warnings():
                 warnings.simplefilter("ignore")
-                c = d.compose("cmp%d_%d" % (cidx, _k), in_alias, out_alias)
+                ckw = {}
+                if rng.random() < 0.3:
+                    ckw["is_async"] = rng.random() < 0.5  # the flavour of the composed DAG may differ from the original's
+                if rng.random() < 0.3:
+                    ckw["max_concurrency"] = rng.randint(1, 3)
+                c = d.compose("cmp%d_%d" % (cidx, _k), in_alias, out_alias, **ckw)
         except ValueError as e:
             col.counters["c19_valueerrors"] += 1
             if not exp_err:
